@@ -30,8 +30,11 @@ def main():
     if os.path.exists(os.path.join(out, f"{letter}.meta.txt")):
         shutil.copy(os.path.join(out, f"{letter}.meta.txt"), os.path.join(dst, "agent_meta.txt"))
     head = open(demo).read(600)
+    tuner = re.search(r"tools/tuner/(tuning|epd|checksum)", head)
     m = re.search(r"(?:/tmp/mut/c\d+/)?\b(board|uci|search|movegen|heur|picker|transp|eval|attacks|debug|move|chess|params|stack)/", head)
     pkg = m.group(1) if m else None
+    if tuner:
+        pkg = tuner.group(1)
     r = re.search(r"-run\s+'?\"?([A-Za-z0-9_|]+)", head)
     runpat = r.group(1) if r else "Demo"
     wt = f"/tmp/sv/{sid}"
@@ -54,7 +57,32 @@ def main():
         res["suite_s"] = round(time.time() - t0)
         if rc != 0:
             res["suite_output"] = o[-1500:]
-        if pkg and demo_name.endswith("_test.go"):
+        if tuner and demo_name.endswith("_test.go"):
+            scratch = wt + "-scratch"
+
+            def sync():
+                shutil.rmtree(scratch, ignore_errors=True)
+                os.makedirs(scratch)
+                for d in ("tuning", "epd", "checksum"):
+                    shutil.copytree(os.path.join(wt, "tools", "tuner", d), os.path.join(scratch, d))
+                open(os.path.join(scratch, "go.mod"), "w").write(
+                    "module github.com/paulsonkoly/chess-3/tools/tuner\n\ngo 1.25.4\n\nrequire github.com/paulsonkoly/chess-3 v0.0.0\n\n"
+                    f"replace github.com/paulsonkoly/chess-3 => {wt}\n")
+                shutil.copy(os.path.join(wt, "go.sum"), os.path.join(scratch, "go.sum"))
+                shutil.copy(demo, os.path.join(scratch, pkg, "zz_seed_demo_test.go"))
+            sync()
+            rc, o = sh(f"go test -vet=off -count=1 -run '{runpat}' ./{pkg}/", scratch)
+            res["demo_fails_with_patch"] = rc != 0 and "FAIL" in o
+            if not res["demo_fails_with_patch"]:
+                res["demo_with_patch_output"] = o[-800:]
+            sh(["git", "checkout", "--", "."], wt)
+            sync()
+            rc, o = sh(f"go test -vet=off -count=1 -run '{runpat}' ./{pkg}/", scratch)
+            res["demo_passes_without_patch"] = rc == 0
+            if rc != 0:
+                res["demo_without_patch_output"] = o[-800:]
+            shutil.rmtree(scratch, ignore_errors=True)
+        elif pkg and demo_name.endswith("_test.go"):
             shutil.copy(demo, os.path.join(wt, pkg, "zz_seed_demo_test.go"))
             rc, o = sh(f"go test -vet=off -count=1 -run '{runpat}' ./{pkg}/", wt)
             res["demo_fails_with_patch"] = rc != 0 and "FAIL" in o
